@@ -423,6 +423,8 @@ static int runScript(const char* scriptPath, const char* outPath, int tid) {
                 else if (t[2] == "chname") { size_t k = std::strtoull(t[3].c_str(), 0, 10), i = std::strtoull(t[4].c_str(), 0, 10); f.analogs_nonConst().subframe_nonConst(k).channel_nonConst(i).name(unx(t[5])); }
                 else if (t[2] == "chn") { size_t k = std::strtoull(t[3].c_str(), 0, 10); f.analogs_nonConst().subframe_nonConst(k).channel_nonConst(unx(t[4])).data(unhex8(t[5])); }   // write through the BY-NAME accessor
                 else if (t[2] == "ptn") { Point& p = f.points_nonConst().point_nonConst(unx(t[3])); p.x(unhex8(t[4])); }                                                             // idem for a point
+                else if (t[2] == "ptnname") { f.points_nonConst().point_nonConst(unx(t[3])).name(unx(t[4])); }                                                                        // RENAME through the by-name handle
+                else if (t[2] == "chnname") { size_t k = std::strtoull(t[3].c_str(), 0, 10); f.analogs_nonConst().subframe_nonConst(k).channel_nonConst(unx(t[4])).name(unx(t[5])); }
                 else { size_t k = std::strtoull(t[3].c_str(), 0, 10), i = std::strtoull(t[4].c_str(), 0, 10); f.analogs_nonConst().subframe_nonConst(k).channel_nonConst(i).data(unhex8(t[5])); }
             });
         }
